@@ -6,6 +6,36 @@ ROOT = os.path.dirname(os.path.dirname(os.path.abspath(__file__)))
 
 # id -> (technique, level text, level note, design ref)
 CHECKS = {
+    "C01": ("hostile-input workload (token mutations, prefixes/suffixes, token soup, hostile numbers) under catch_unwind, with big-number strings parsed in a child process under RLIMIT_AS so that allocation aborts are observed; structural round-trip oracle against the generating model",
+            "Exploration: every string's outcome is classified ok / err / panic / abort; accepted symbols are re-read through op/v and validated (involutions on 1..size, degrees constant on orbits and multiples of r); round trips of ~5k symbols incl. 100-1000 chamber covers judged structurally against the model that produced them.",
+            "Trusted: the model's own printer/reader of the text format. Strings are sampled beyond the enumerated prefixes/suffixes.", "6/C01"),
+    "C02": ("reference-model monitor: every query of every representation compared with a plain-vector model over the full argument box incl. out-of-range values; exhaustive over all labelled small D-sets",
+            "Exploration: all labelled tuples of involutions with commuting far operations up to the size bounds (every numbering of every small set, connected or not) x branching assignments, each through PartialDSet, SimpleDSet, PartialDSym, SimpleDSym, as_* conversions, parser output and generator output; orbits/orbit_reps/traversals over all index subsets and seed lists.",
+            "Trusted: MSym model (orbit length by iteration, BFS reachability, 2-colouring). Incomplete sets only exercised for absence of panics.", "6/C02"),
+    "C03": ("metamorphic + differential monitor: all n! renumberings for small n, brute-force canonical form (every start chamber) as isomorphism oracle, run-wide partition comparison for both directions of the iff",
+            "Exploration: canonical form isomorphic to input, idempotent, invariant under every explored renumbering; partition of ~30k symbols by library canonical form equals partition by brute-force canonical form.",
+            "Trusted: model isomorphism test. Connected complete symbols only.", "6/C03"),
+    "C04": ("differential monitor against Moore partition refinement (coarsest congruence), brute-force automorphisms and verified BFS morphism extension; covers vs bases",
+            "Exploration: minimal_image / is_minimal / automorphisms / morphism(self, other, img0) for every img0 and six kinds of target / fold chained through returned partitions, on all small symbols plus hand-made witnesses and validated covers.",
+            "Trusted: the refinement and brute-force oracles; source connected and complete.", "6/C04"),
+    "C06": ("exhaustive differential monitor: generator output vs brute-force enumeration of ALL involution tuples up to isomorphism; membership sampling beyond the bound; pruning hooks must fire",
+            "Exploration, exhaustive at the stated bounds: soundness, irredundancy and completeness of DSets(dim, n) against all tuples of involutions (dim 1 n<=7, dim 2 n<=6, dim 3 n<=5 quick; larger thorough); beyond: validity, pairwise non-isomorphism, prefix consistency, derived and random valid sets must be present.",
+            "Trusted: brute-force canonical form. Completeness beyond the bound only sampled.", "6/C06"),
+    "C07": ("exhaustive differential monitor: generator output per geometry vs reference enumeration of all branching assignments (v <= 9) modulo brute-force automorphisms, exact rational curvature from an independent orbifold model",
+            "Exploration, exhaustive over all connected 2D D-sets up to 6 (thorough 8) chambers in three numberings x four geometry settings: validity of every output, irredundancy, equality with the reference sets, 'all' = disjoint union.",
+            "Trusted: orbifold model and the property's list of 31 good spherical orbifolds; v > 9 not explored by the reference.", "6/C07"),
+    "C08": ("certificate monitor: the returned Conway symbol is parsed and its Euler characteristic compared with the curvature (Gauss-Bonnet, exact); differential against an orbifold computed from definitions; metamorphic (renumbering, dual, covers)",
+            "Exploration: all 2D symbols on connected sets <= 4 (thorough 5) chambers with v <= 5, sampled larger ones with two-digit cones, duals, renumberings, covers <= 4 sheets.",
+            "Trusted: orbifold model (cones, boundary tracing, genus) and the symbol parser of the harness.", "6/C08"),
+    "C11": ("differential monitor against the harness's own HLT Todd-Coxeter; returned table re-read through len/get and checked structurally; corpus of presentations with literature orders, non-normal subgroups via Schreier generators of low-index actions, redundant textbook presentations as hostile inputs",
+            "Exploration: thousands of (presentation, subgroup) pairs, mostly non-normal subgroups; every clause of the property checked on the returned table and representatives.",
+            "Trusted: harness Todd-Coxeter (self-validating: it checks its own table) and literature orders; finite index <= 3000.", "6/C11"),
+    "C12": ("differential monitor against brute-force enumeration of all homomorphisms into S_n up to conjugacy (ground truth) and the harness's own low-index search (cross-checked); canonical forms of actions for inequivalence",
+            "Exploration: every corpus presentation at every index bound up to 4-6, fundamental groups of 2D/3D symbols; validity of each table, pairwise inequivalence, number of classes per index.",
+            "Trusted: brute-force homomorphism count where (n!)^gens <= 3e6; low-index oracle beyond.", "6/C12"),
+    "C13": ("differential monitor: index of the generated subgroup by Todd-Coxeter, order of the presented group, abelianisation and low-index profile against the harness's own Reidemeister-Schreier presentation; core/intersection against permutation-group closure and product-action orbits with word membership tests",
+            "Exploration: stabiliser of every base row of every transitive action (index <= 5-7) of every corpus group, core of every table <= 8 rows, intersections of pairs <= 6 rows.",
+            "Trusted: harness Todd-Coxeter, Reidemeister-Schreier, SNF and permutation closure.", "6/C13"),
     "C10": ("lock-step reference-model monitor over operation histories (free-group model), exhaustive small words + random histories",
             "Exploration: every operation of ~1.4M judged operations compared with an independent free-group model; exhaustive over all raw letter sequences up to length 4 (0 letters included) for unary ops and all pairs up to length 3 for binary ops; order axioms on all triples. Right level because the property is a universally quantified algebraic law whose failures show on short words.",
             "Trusted: the harness's cancel-until-fixpoint reduction; words over <= 3 generators; random histories sampled.", "6/C10"),
